@@ -831,6 +831,11 @@ def m_anyall(is_any):
 def m_pow(i, args, kw, st, node):
     if len(args) == 3 and args[2] is None:
         args = args[:2]
+    if args and isinstance(args[0], AObj) and args[0].cnode is not None and args[0].ident not in st.havoc:
+        # pow(obj, e[, m]) is type(obj).__pow__(obj, e[, m])
+        r = i.repo.find_method(args[0].mod, args[0].cnode, "__pow__")
+        if r is not None:
+            return i.call_func(AFunc(r[0], r[1], self_obj=args[0], cls=args[0].cnode), list(args[1:]), {}, st, node)
     if all(isinstance(a, int) for a in args) and len(args) in (2, 3):
         try:
             if len(args) == 2 and args[1] > 100000:
@@ -931,8 +936,19 @@ def m_none(i, args, kw, st, node):
     return None
 
 
+def _as_index(i, v, st, node):
+    """An object with __index__ (or __int__) where an integer is required."""
+    if isinstance(v, AObj) and v.cnode is not None and v.ident not in st.havoc:
+        for nm in ("__index__", "__int__"):
+            r = i.repo.find_method(v.mod, v.cnode, nm)
+            if r is not None:
+                return i.call_func(AFunc(r[0], r[1], self_obj=v, cls=v.cnode), [], {}, st, node)
+    return v
+
+
 def m_struct_pack(i, args, kw, st, node):
     if args and isinstance(args[0], str):
+        args = [args[0]] + [_as_index(i, a, st, node) for a in args[1:]]
         if all(is_concrete(a) for a in args):
             try:
                 return struct.pack(*args)
@@ -1211,6 +1227,10 @@ def r_long_to_bytes(i, args, kw, st, node):
         if bs > 0 and len(r) % bs:
             r = b"\x00" * (bs - len(r) % bs) + r
         return r
+    if isinstance(n, AObj) and n.cnode is not None and n.ident not in st.havoc and isinstance(bs, int):
+        # an Integer object: the real body works on it through its operators
+        m = i.repo.module("Crypto.Util.number")
+        return i.call_func(AFunc(m, i.repo.func(m, "long_to_bytes")), list(args), dict(kw), st, node)
     return ABytes(None, "bytes")
 
 
